@@ -402,5 +402,19 @@ void guarded(void) {
 }
 
 
+_LONG = "compute_the_monthly_aggregated_statistics_for_every_customer_segment_and_region_including_the_adjustments_of_the_previous_quarter_v2"  # 130+ characters
+
+
+def _long_identifier(lang):
+    if lang == "Python":
+        return f"def {_LONG}(a):\n    return a\n\ndef {_LONG}_b(a):\n    return a + 1\n"
+    if lang in ("JavaScript", "TypeScript"):
+        return f"function {_LONG}(a) {{\n  return a;\n}}\nfunction {_LONG}_b(a) {{\n  return a + 1;\n}}\n"
+    body = f"int {_LONG}(int a) {{\n    return a;\n}}\nint {_LONG}_b(int a) {{\n    return a + 1;\n}}\n"
+    return body if lang in ("C", "C++") else "class K {\n" + body + "}\n"
+
+
 def snippets(lang):
-    return sorted(WILD.get(lang, {}).items())
+    d = dict(WILD.get(lang, {}))
+    d["long-identifiers"] = _long_identifier(lang)
+    return sorted(d.items())
